@@ -36,7 +36,8 @@ NUMERIC = (f"""(define (domain n1)
   :effect (and (increase (g ?x) 1) (decrease (f) 0.5) (on ?x)))
 (:action xfer :parameters (?x - t1 ?y - t1)
   :precondition (and (>= (g ?x) 1))
-  :effect (and (decrease (g ?x) 1) (increase (h ?x ?y) 1) (assign (f) (* (g ?y) -1)))))
+  :effect (and (decrease (g ?x) 1) (increase (h ?x ?y) 1) (assign (f) (* (g ?y) -1))))
+(:action tick :parameters () :precondition (and) :effect (and (increase (f) 0.00001))))
 """, """(define (problem n1p) (:domain n1)
 (:objects a b - t1)
 (:init (= (f) -2) (= (g a) 0) (= (g b) 1.5) (= (h a a) 0) (= (h a b) 0) (= (h b a) 0.25) (= (h b b) 0))
@@ -48,7 +49,7 @@ COND = (f"""(define (domain c1)
 (:types t1 t3 - object t2 - t1)
 (:constants k - t1)
 (:predicates (p ?a - t1) (q ?a - t1 ?b - t1) (r) (m ?a - object))
-(:functions (cnt))
+(:functions (cnt) (aux))
 (:action sweep :parameters (?x - t1)
   :precondition (and (p ?x) (forall (?z - t2) (or (m ?z) (not (p ?z)))))
   :effect (and (not (p ?x))
@@ -57,7 +58,8 @@ COND = (f"""(define (domain c1)
 (:action link :parameters (?x - t1 ?y - t1)
   :precondition (and (not (= ?x ?y)) (or (p ?x) (r)))
   :effect (and (q ?x ?y) (when (not (r)) (m ?y))))
-(:action mark :parameters (?o - object) :precondition (and (not (m ?o))) :effect (and (m ?o) (p k))))
+(:action mark :parameters (?o - object) :precondition (and (not (m ?o))) :effect (and (m ?o) (p k)))
+(:action bump :parameters () :precondition (and) :effect (and (assign (aux) (+ (cnt) 1)))))
 """, """(define (problem c1p) (:domain c1)
 (:objects a - t1 b b2 - t2 w - t3)
 (:init (p a) (q a b) (q a b2) (= (cnt) 0))
